@@ -83,6 +83,9 @@ func runE2E(casesPath string, nrand int) {
 
 	base := 100
 	one := func(cls string, shapes []int, cutsOf func(r *run) []int) {
+		if givenUp() {
+			return
+		}
 		sp := streamSpec{Proto: "Http1", Shapes: shapes, Base: base}
 		base += len(shapes)
 		r := prepare(sp)
@@ -164,6 +167,7 @@ func runE2E(casesPath string, nrand int) {
 				case a := <-reg.Arrived:
 					got = append(got, e2eIdentify(r, byTok, a))
 				case <-dl2:
+					longWaits++
 					break wait
 				}
 			}
@@ -194,6 +198,7 @@ func runE2E(casesPath string, nrand int) {
 					tr.Emit(vh.Ev{"ev": "err", "what": fmt.Sprintf("reply-%d-status-%d", k+1, st)})
 				}
 			case <-time.After(asyncWait):
+				longWaits++
 				tr.Emit(vh.Ev{"ev": "err", "what": "reply-missing"})
 				return
 			}
